@@ -61,7 +61,9 @@ Definition C31_model_ok (c : C31_case) : bool :=
   match c with
   | CSim iv ops => fst (run_sim (init_state iv) ops)
   | CBlock mbt poisoned rc elapsed _ =>
-      if poisoned then rc =? -1 else (rc =? 10) && (elapsed =? mbt)
+      (* a worker inside the class C31-negative-sleep never wakes again: the write stays blocked
+         (max_blocking_time 0 expires in the very iteration that stored the pending sample) *)
+      if poisoned && (0 <? mbt) then rc =? -1 else (rc =? 10) && (elapsed =? mbt)
   | CFree _ => true
   end.
 
